@@ -23,7 +23,7 @@ class Layout(object):
         self.module_doc = module_doc
         self.siblings = list(siblings)
 
-    def definition(self, desc, style):
+    def _definition(self, desc, style):
         if desc is None:
             return None
         if self.kind == "class" and "." in self.name:
@@ -44,6 +44,21 @@ class Layout(object):
                                         body=style.get("body"), extra_documented=style.get("stale", ()), style=style.get("docstyle", "rest"))
         return render.render_function(desc, self.name, inline_types=style.get("inline_types", True),
                                       kwonly=style.get("kwonly", False), body=style.get("body"), extra_documented=style.get("stale", ()), style=style.get("docstyle", "rest"))
+
+    def definition(self, desc, style):
+        d = self._definition(desc, style)
+        deco = style.get("decorators")
+        if d is None or not deco or self.kind == "class":
+            return d
+        # put the decorator lines in front of the `def` of the named function / method (at its indentation)
+        out, done = [], False
+        for ln in d.split("\n"):
+            if not done and ln.lstrip().startswith("def %s(" % self.name.split(".")[-1]):
+                ind = ln[: len(ln) - len(ln.lstrip())]
+                out += [ind + x for x in deco]
+                done = True
+            out.append(ln)
+        return "\n".join(out)
 
     def text(self, desc, style, state="present"):
         if state == "missing":
@@ -105,7 +120,9 @@ def gen_style(ch, label, body_p=0.3):
                                             ["count: int", "count = 1", "print(count)"]])
     st = {"inline_types": ch.chance(label + ".inline", 0.7), "kwonly": ch.chance(label + ".kwonly", 0.2),
           "default_doc": ch.chance(label + ".ddoc", 0.3), "body": body, "plain_attrs": ch.chance(label + ".plain", 0.2),
-          "bare_argparse": ch.weighted(label + ".bare", [(None, 8), ("no_docstring", 1), ("no_description", 1)])}
+          "bare_argparse": ch.weighted(label + ".bare", [(None, 8), ("no_docstring", 1), ("no_description", 1)]),
+          # decorators on the synchronised definition itself (bare names, dotted names, calls)
+          "decorators": ch.weighted(label + ".deco", [(None, 9), (["@functools.lru_cache(maxsize=None)"], 1), (["@abc.abstractmethod", "@log_calls"], 0.7)])}
     if ch.chance(label + ".docstyle", DOCSTYLE_P):
         # a function whose author writes google / numpydoc docstrings (sync itself always emits ReST)
         st["docstyle"] = ch.choice(label + ".docstylev", ["google", "numpydoc", "rest_compact"])
@@ -403,6 +420,10 @@ def target_fn({oarg}: str{oargdef}, keep: int = 1, *, {okw2}: float = 0.5):
 class Later(object):
     def method(self, {omarg}: int = 3):
         return {omarg}
+
+
+def pos_fn(first: int = 1, /, {oarg}: str = "p", last: int = 3):
+    return first
 '''
 
 
@@ -467,7 +488,7 @@ def sp_op(proj, ch, lab, _files):
     inp = (tch.choice("inheader", render.HEADERS) or "") + inp
     in_addrs = ["Source." + cattr, "Source.method." + marg, "source_fn." + farg, "source_fn." + kwarg, "module_attr"]
     out_addrs = [oconst, "Target." + oattr, "Target.method." + omarg, "Target.method." + okw, "target_fn." + oarg, "target_fn." + okw2,
-                 "Later.method." + omarg, "helper." + oarg]
+                 "Later.method." + omarg, "helper." + oarg, "pos_fn." + oarg]
     ev = ch.chance(lab + ".eval", 0.3)
     npairs = ch.weighted(lab + ".npairs", [(1, 5), (2, 3), (3, 2)])
     pairs = []
@@ -484,7 +505,7 @@ def sp_op(proj, ch, lab, _files):
             if outs[j] in stmt_outs:
                 pool = ["Source." + cattr, "module_attr"]
         a = evalname if ev else ch.choice(lab + ".in%d" % j, pool)
-        if ev and steer and outs[j] in ("Target.method." + omarg, "target_fn." + oarg, "Later.method." + omarg, "helper." + oarg):
+        if ev and steer and outs[j] in ("Target.method." + omarg, "target_fn." + oarg, "Later.method." + omarg, "helper." + oarg, "pos_fn." + oarg):
             free = [x for x in (oconst, "Target." + oattr, "Target.method." + okw, "target_fn." + okw2) if x not in outs]
             outs[j] = ch.choice(lab + ".evout%d" % j, free)
         scope = outs[j].rpartition(".")[0]
@@ -498,7 +519,7 @@ def sp_op(proj, ch, lab, _files):
         pairs.append([a, outs[j]])
     if samename and not ev:
         scope_names = {"": [oconst, "keep_me"], "Target": [oattr, "other_attr"], "Target.method": [omarg, "keep", okw],
-                       "target_fn": [oarg, "keep", okw2], "Later.method": [omarg], "helper": [oarg, "unrelated"]}
+                       "target_fn": [oarg, "keep", okw2], "Later.method": [omarg], "helper": [oarg, "unrelated"], "pos_fn": ["first", oarg, "last"]}
         homes = [x for x in out_addrs if x.rpartition(".")[2] == cattr]
         if ch.chance(lab + ".samefirst", 0.6):
             pairs[0] = ["Source." + cattr, ch.choice(lab + ".samehome", homes)]
